@@ -80,6 +80,8 @@ def short_input(inp, limit=700):
 
 def panic_signature(obs, inp):
     """Narrow signature of a crash, from the functions on the stack."""
+    if obs.get("Kind") == "fatal" or (obs.get("Panic") or "").startswith("fatal"):
+        return "parser-fatal-error"     # the whole process died (stack overflow, os.Exit, ...): not recoverable
     at = obs.get("PanicAt") or ""
     text = "\n".join(inp["Files"].values())
     if "wrapErr" in at:
@@ -93,8 +95,10 @@ def panic_signature(obs, inp):
         return "expr-compiler-panic"
     if "compileV2" in at:
         return "compile-panic"
-    m = re.search(r"cmd\.\(?\*?(\w+)\)?\.(\w+)", at)
-    return "panic-in-" + (m.group(2) if m else "unknown")
+    for fr in at.split(" < "):
+        if "/pkg/cmd." in fr and "Verif" not in fr:
+            return "panic-in-" + fr.rsplit(".", 1)[-1]
+    return "panic-in-unknown"
 
 
 CLS = {1: "read-error", 2: "eof-in-continuation", 3: "include-depth", 4: "undefined-parameter", 5: "include-not-found",
@@ -104,7 +108,7 @@ CLS = {1: "read-error", 2: "eof-in-continuation", 3: "include-depth", 4: "undefi
 
 def describe_obs(o):
     if o["Kind"] != "rejected":
-        return o["Kind"] + ((": " + o.get("Panic", "")) if o["Kind"] == "panicked" else "")
+        return o["Kind"] + ((": " + o.get("Panic", "")) if o["Kind"] in ("panicked", "fatal") else "")
     s = "rejected (%s)" % CLS.get(o["Cls"], o["Cls"])
     if o.get("HasPos"):
         s += " at %s:%d" % (o["Pos"]["File"], o["Pos"]["Line"])
